@@ -194,17 +194,24 @@ inductive LS where
   | strEsc (acc : Str)  -- after a backslash inside a string
   deriving DecidableEq, Repr
 
+/-- outcome classes of reading one placeholder: a lexer/parser error (`InvalidGrokExpression`), or a
+    float literal the `Prims` instance declines to parse. -/
+inductive PhErr where
+  | syntax
+  | oom
+  deriving DecidableEq, Repr
+
 /-- `numeric_literal`: digits and `e E - + .`; a float if any of the latter occurs. -/
-def finishNum (P : Prims) (acc : Str) : Out Tok :=
+def finishNum (P : Prims) (acc : Str) : Except PhErr Tok :=
   let num := acc.reverse
   if num.any isFloatSym then
     match P.parseF64 num with
     | some (some bits) => .ok (.float bits)
-    | some none => .err .syntax
-    | none => .oom
+    | some none => .error .syntax
+    | none => .error .oom
   else
     let v : Int := natOfDigits num
-    if v ≤ i64Max then .ok (.int v) else .err .syntax
+    if v ≤ i64Max then .ok (.int v) else .error .syntax
 
 def startStep (c : Char) : List Tok × LS :=
   if c = '%' then ([], .pct)
@@ -223,7 +230,7 @@ def startStep (c : Char) : List Tok × LS :=
   else if isWs c then ([], .start)
   else ([.invalid], .start)
 
-def lexStep (P : Prims) : LS → Char → Out (List Tok × LS)
+def lexStep (P : Prims) : LS → Char → Except PhErr (List Tok × LS)
   | .start, c => .ok (startStep c)
   | .pct, c =>
     if c = '{' then .ok ([.lrule], .start)
@@ -238,20 +245,17 @@ def lexStep (P : Prims) : LS → Char → Out (List Tok × LS)
     if isDigit c || isFloatSym c then .ok ([], .num (c :: acc))
     else match finishNum P acc with
       | .ok t => .ok (t :: (startStep c).1, (startStep c).2)
-      | .err e => .err e
-      | .panic => .panic
-      | .oom => .oom
-      | .fuel => .fuel
+      | .error e => .error e
   | .str acc, c =>
     if c = '\\' then .ok ([], .strEsc (c :: acc))
     else if c = '"' then
       match unesc acc.reverse with
       | some t => .ok ([.str t], .start)
-      | none => .err .syntax
+      | none => .error .syntax
     else .ok ([], .str (c :: acc))
   | .strEsc acc, c => .ok ([], .str (c :: acc))
 
-def lexEnd (P : Prims) : LS → Out (List Tok)
+def lexEnd (P : Prims) : LS → Except PhErr (List Tok)
   | .start => .ok []
   | .pct => .ok [.invalid]
   | .dot => .ok [.dot]
@@ -259,30 +263,21 @@ def lexEnd (P : Prims) : LS → Out (List Tok)
   | .num acc =>
     match finishNum P acc with
     | .ok t => .ok [t]
-    | .err e => .err e
-    | .panic => .panic
-    | .oom => .oom
-    | .fuel => .fuel
-  | .str _ | .strEsc _ => .err .syntax
+    | .error e => .error e
+  | .str _ | .strEsc _ => .error .syntax
 
 /-- the lexer; every lexer error is the class `syntax`. -/
-def lexFrom (P : Prims) : LS → Str → Out (List Tok)
+def lexFrom (P : Prims) : LS → Str → Except PhErr (List Tok)
   | st, [] => lexEnd P st
   | st, c :: cs =>
     match lexStep P st c with
     | .ok (ts, st') =>
       (match lexFrom P st' cs with
        | .ok rest => .ok (ts ++ rest)
-       | .err e => .err e
-       | .panic => .panic
-       | .oom => .oom
-       | .fuel => .fuel)
-    | .err e => .err e
-    | .panic => .panic
-    | .oom => .oom
-    | .fuel => .fuel
+       | .error e => .error e)
+    | .error e => .error e
 
-def lex (P : Prims) (s : Str) : Out (List Tok) := lexFrom P .start s
+def lex (P : Prims) (s : Str) : Except PhErr (List Tok) := lexFrom P .start s
 
 /-- scalar values as the grok code sees them: byte strings are always valid UTF-8 text here
     (literals of the placeholder syntax, matched substrings of a `&str`, `String` results). -/
@@ -332,9 +327,12 @@ def joinDot : List Str → Str
   | a :: rest => a ++ '.' :: joinDot rest
 
 /-- `("." Identifier)*` -/
-def qualTail : List Tok → Out (List Str × List Tok)
-  | .dot :: .ident s :: r => do let (l, r') ← qualTail r; pure (s :: l, r')
-  | .dot :: _ => .err .syntax
+def qualTail : List Tok → Except PhErr (List Str × List Tok)
+  | .dot :: .ident s :: r =>
+    match qualTail r with
+    | .ok (l, r') => .ok (s :: l, r')
+    | .error e => .error e
+  | .dot :: _ => .error .syntax
   | r => .ok ([], r)
 
 /-- states of the argument-list reader (all nesting levels obey the same grammar, so a depth
@@ -358,10 +356,10 @@ def litOfTok : Tok → Option SV
 /-- `CommaList<Arg> ")"` with `Arg = Literal | FunctionOrRef`, `CommaList = (Arg ",")* Arg?`.
     `depth` counts the open parentheses (≥ 1); only the arguments of the outermost list are kept
     (most recent first in `acc`), nested calls are checked for syntax and recorded as `Arg.fn`. -/
-def argsGo : Nat → AS → List Arg → List Tok → Out (List Arg × List Tok)
-  | _, _, _, [] => .err .syntax
+def argsGo : Nat → AS → List Arg → List Tok → Except PhErr (List Arg × List Tok)
+  | _, _, _, [] => .error .syntax
   | depth, st, acc, t :: r =>
-    let close : Out (List Arg × List Tok) :=
+    let close : Except PhErr (List Arg × List Tok) :=
       if depth ≤ 1 then .ok (acc.reverse, r) else argsGo (depth - 1) .afterLit acc r
     match st with
     | .argOrClose =>
@@ -371,24 +369,24 @@ def argsGo : Nat → AS → List Arg → List Tok → Out (List Arg × List Tok)
         | none =>
           match t with
           | .ident _ => argsGo depth .afterName (if depth ≤ 1 then .fn :: acc else acc) r
-          | _ => .err .syntax
+          | _ => .error .syntax
     | .afterLit =>
       if t = .comma then argsGo depth .argOrClose acc r
       else if t = .rpar then close
-      else .err .syntax
+      else .error .syntax
     | .afterName =>
       if t = .dot then argsGo depth .afterDot acc r
       else if t = .lpar then argsGo (depth + 1) .argOrClose acc r
       else if t = .comma then argsGo depth .argOrClose acc r
       else if t = .rpar then close
-      else .err .syntax
+      else .error .syntax
     | .afterDot =>
       match t with
       | .ident _ => argsGo depth .afterName acc r
-      | _ => .err .syntax
+      | _ => .error .syntax
 
 /-- `FunctionOrRef` -/
-def parseFn : List Tok → Out (Fn × List Tok)
+def parseFn : List Tok → Except PhErr (Fn × List Tok)
   | .ident s :: r =>
     match qualTail r with
     | .ok (l, r1) =>
@@ -396,30 +394,24 @@ def parseFn : List Tok → Out (Fn × List Tok)
        | .lpar :: r2 =>
          (match argsGo 1 .argOrClose [] r2 with
           | .ok (args, r3) => .ok (⟨joinDot (s :: l), some args⟩, r3)
-          | .err e => .err e
-          | .panic => .panic
-          | .oom => .oom
-          | .fuel => .fuel)
+          | .error e => .error e)
        | _ => .ok (⟨joinDot (s :: l), none⟩, r1))
-    | .err e => .err e
-    | .panic => .panic
-    | .oom => .oom
-    | .fuel => .fuel
-  | _ => .err .syntax
+    | .error e => .error e
+  | _ => .error .syntax
 
 /-- `Lookup`: one or more `"."? Field | "[" String "]"`; returns the segments read (possibly none). -/
-def lookupTail : List Tok → Out (List Str × List Tok)
+def lookupTail : List Tok → Except PhErr (List Str × List Tok)
   | .dot :: .ident s :: r => do let (l, r') ← lookupTail r; pure (s :: l, r')
   | .dot :: .ext s :: r => do let (l, r') ← lookupTail r; pure (s :: l, r')
-  | .dot :: _ => .err .syntax
+  | .dot :: _ => .error .syntax
   | .ident s :: r => do let (l, r') ← lookupTail r; pure (s :: l, r')
   | .ext s :: r => do let (l, r') ← lookupTail r; pure (s :: l, r')
   | .lbr :: .str s :: .rbr :: r => do let (l, r') ← lookupTail r; pure (s :: l, r')
-  | .lbr :: _ => .err .syntax
+  | .lbr :: _ => .error .syntax
   | r => .ok ([], r)
 
 /-- `GrokFilter` (the start symbol): the whole placeholder. -/
-def parsePat (toks : List Tok) : Out Pat :=
+def parsePat (toks : List Tok) : Except PhErr Pat :=
   match toks with
   | .lrule :: r => do
     let (f, r1) ← parseFn r
@@ -428,23 +420,24 @@ def parsePat (toks : List Tok) : Out Pat :=
     | [.colon, .rrule] => pure ⟨f, none⟩
     | .colon :: .colon :: r2 => do
       let (g, r3) ← parseFn r2
-      if r3 = [.rrule] then pure ⟨f, some ⟨[], some g⟩⟩ else .err .syntax
+      if r3 = [.rrule] then pure ⟨f, some ⟨[], some g⟩⟩ else .error .syntax
     | .colon :: r2 => do
       let (path, r3) ← lookupTail r2
-      if path = [] then .err .syntax
+      if path = [] then .error .syntax
       else match r3 with
         | [.rrule] => pure ⟨f, some ⟨path, none⟩⟩
         | .colon :: r4 => do
           let (g, r5) ← parseFn r4
-          if r5 = [.rrule] then pure ⟨f, some ⟨path, some g⟩⟩ else .err .syntax
-        | _ => .err .syntax
-    | _ => .err .syntax
-  | _ => .err .syntax
+          if r5 = [.rrule] then pure ⟨f, some ⟨path, some g⟩⟩ else .error .syntax
+        | _ => .error .syntax
+    | _ => .error .syntax
+  | _ => .error .syntax
 
 /-- `parse_grok_pattern` -/
-def parsePlaceholder (P : Prims) (s : Str) : Out Pat := do
-  let toks ← lex P s
-  parsePat toks
+def parsePlaceholder (P : Prims) (s : Str) : Except PhErr Pat :=
+  match lex P s with
+  | .ok toks => parsePat toks
+  | .error e => .error e
 
 /-! ## 3. Filters (`grok_filter.rs`) -/
 
@@ -593,10 +586,17 @@ def resolvePieces (P : Prims) (aliases : List (Str × Str))
     (self : Str → Ctx → Out Ctx) : List Piece → Ctx → Out Ctx
   | [], c => .ok c
   | .text s :: rest, c => resolvePieces P aliases self rest (c.append s)
-  | .ph s :: rest, c => do
-    let p ← parsePlaceholder P s
-    let c' ← resolvePat aliases self p c
-    resolvePieces P aliases self rest c'
+  | .ph s :: rest, c =>
+    match parsePlaceholder P s with
+    | .ok p =>
+      (match resolvePat aliases self p c with
+       | .ok c' => resolvePieces P aliases self rest c'
+       | .err e => .err e
+       | .panic => .panic
+       | .oom => .oom
+       | .fuel => .fuel)
+    | .error .syntax => .err .syntax
+    | .error .oom => .oom
 
 /-- `parse_grok_rule`; the recursion through alias definitions is bounded by `fuel`
     (`aliases.length + 1` is always enough: C32.parseRule_terminates). -/
